@@ -213,6 +213,32 @@ fn check_methods(ctx: &Ctx, st: &mut CStats) {
                     problems.push(format!("SuperMinHash::get_jaccard_index_estimate accepts a sketch of length {} against its own of length {}", lb, m));
                 }
             }
+            // sketchers that hold nothing yet (fresh, and after reinit): the method still compares position by position
+            for stage in ["fresh", "after reinit"] {
+                let mut e1 = SuperMinHash::<f64, u64, FnvHasher>::new(m, BuildHasherDefault::<FnvHasher>::default());
+                let mut e2 = SuperMinHash2::<u64, u64, FnvHasher>::new(m, BuildHasherDefault::<FnvHasher>::default());
+                if stage == "after reinit" {
+                    e1.sketch(&5u64).unwrap();
+                    e1.reinit();
+                    e2.sketch(&5u64).unwrap();
+                    e2.reinit();
+                }
+                let o1 = e1.get_hsketch().clone();
+                let o2 = e2.get_hsketch().clone();
+                for mask in 0..(1u32 << m) {
+                    let want = mask.count_ones() as f64 / m as f64;
+                    let other1: Vec<f64> = (0..m).map(|i| if mask & (1 << i) != 0 { o1[i] } else { 0.25 }).collect();
+                    match e1.get_jaccard_index_estimate(&other1) {
+                        Ok(v) if v == want => {}
+                        o => problems.push(format!("SuperMinHash::get_jaccard_index_estimate on a sketcher that holds nothing ({}) m={} mask={:b}: {:?}, expected {}", stage, m, mask, o.map_err(|e| e.to_string()), want)),
+                    }
+                    let other2: Vec<u64> = (0..m).map(|i| if mask & (1 << i) != 0 { o2[i] } else { 77 }).collect();
+                    match e2.get_jaccard_index_estimate(&other2) {
+                        Ok(v) if v == want => {}
+                        o => problems.push(format!("SuperMinHash2::get_jaccard_index_estimate on a sketcher that holds nothing ({}) m={} mask={:b}: {:?}, expected {}", stage, m, mask, o, want)),
+                    }
+                }
+            }
             let mut sk2 = SuperMinHash2::<u64, u64, FnvHasher>::new(m, BuildHasherDefault::<FnvHasher>::default());
             for i in 0..3u64 {
                 sk2.sketch(&i).unwrap();
